@@ -26,6 +26,7 @@ var (
 	pReuseShrink        = simrt.NewProbe("receiver.reused.packet.shrinks")
 	pLarge              = simrt.NewProbe("frame.payload>=64KiB")
 	pSecondPair         = simrt.NewProbe("second.connection.shares.pools")
+	pLongHistory        = simrt.NewProbe("stream.long.history(300..3300 packets)")
 	pForgedNeg          = simrt.NewProbe("forged.negative")
 	pForgedBig          = simrt.NewProbe("forged.over.maximum")
 	pForgedBelow        = simrt.NewProbe("forged.below.threshold")
@@ -49,6 +50,7 @@ type pair struct {
 	pkts      []sent
 	viaConn   []bool
 	recvMode  int // 0 reuse one Packet, 1 fresh each, 2 pre-filled
+	recvSalt  int
 	link      *simnet.Link
 	got       []pk.Packet // retained values (fresh mode)
 	big       bool
@@ -61,12 +63,22 @@ func drawPair(tp *tape.Tape, name string, tag int, maxPkts int) *pair {
 	if tp.Bool(1, 6) {
 		n = 1 + tp.Choose(maxPkts)
 	}
+	// long warm-up histories of small packets (state carried across many
+	// operations on one connection and in the shared pools)
+	long := maxPkts >= 50 && tp.Bool(1, 40)
+	if long {
+		pLongHistory.Hit()
+		n = 300 + tp.Choose(3000)
+	}
 	total := 0
 	for i := 0; i < n; i++ {
 		id := gen.PacketID(tp)
 		maxLen := 1<<21 - 5
 		if total > 1<<20 || !tp.Bool(1, 25) {
 			maxLen = 40000
+		}
+		if long {
+			maxLen = 300
 		}
 		l := gen.PayloadLen(tp, p.threshold, id, maxLen)
 		total += l
@@ -81,6 +93,7 @@ func drawPair(tp *tape.Tape, name string, tag int, maxPkts int) *pair {
 		p.viaConn = append(p.viaConn, tp.Bool(1, 2))
 	}
 	p.recvMode = tp.Choose(3)
+	p.recvSalt = tp.Choose(30)
 	return p
 }
 
@@ -148,7 +161,19 @@ func scenarioStream(c *harness.Ctx) {
 					case 1:
 						q = new(pk.Packet)
 					default:
-						q = &pk.Packet{ID: 0x55, Data: bytes.Repeat([]byte{0xAA}, 1+(j*37)%200)}
+						// pre-filled receiver whose length and capacity relate to the
+						// incoming payload in every way: shorter, equal, longer, with
+						// spare capacity below / at / above the payload length
+						l := []int{0, 1, len(s.data) / 2, len(s.data), len(s.data) + 1, 1 + (j*37)%200}[(j+p.recvSalt)%6]
+						cp := l + []int{0, 0, 1, len(s.data), len(s.data) + 7}[(j/2+p.recvSalt)%5]
+						if l > 1<<16 {
+							l, cp = 16, 16
+						}
+						buf := make([]byte, l, cp)
+						for i := range buf[:cap(buf)] {
+							buf[:cap(buf)][i] = 0xAA
+						}
+						q = &pk.Packet{ID: 0x55, Data: buf}
 					}
 					var err error
 					if j%2 == 0 {
